@@ -2,7 +2,7 @@
 from . import cachefam as F
 
 EXPLANATION = ("Necessary conditions of transparency decided on Context.evaluate and the memory back-end: a bypassed "
-               "read implies a bypassed write (no polluted entry), lookup key == filing key == canonical text, the "
+               "read implies a bypassed write (no polluted entry), the filing key denotes the evaluated query (canonical or as-typed text of it), the "
                "bypass decision covers the whole evaluation tree, and the in-memory cache is copy-in/copy-out (the "
                "evaluator labels states in place). NOT decided: equality of outcomes over cache kinds x histories.")
 
@@ -11,8 +11,7 @@ def run(chk):
     ev = F.Evaluate(chk.repo)
     ea = F.EvalAction(chk.repo)
     F.rule_read_bypass_implies_write_bypass(chk, ev, ea, "C04.1")
-    F.rule_lookup_key(chk, ev, "C04.2")
-    F.rule_filed_under_canonical_text(chk, ev, chk.repo, "C04.2b")
+    F.rule_filed_under_canonical_text(chk, ev, chk.repo, "C04.2", accept_raw=True)
     F.rule_recursion_passes_cache(chk, ev, "C04.3")
     F.rule_memory_copy(chk, chk.repo, "C04.4")
     F.rule_backend_refuses_errors(chk, chk.repo, "C04.5")
